@@ -31,11 +31,18 @@ CLAIMED['C20'] = dict(
          'C20_inactive_no_action, C20_tokens_after). Histories: C20_invariant, C20_budget (created <= available(t0) '
          '+ 2*count/3600*(t1-t0) while the monitor is not reconfigured), C20_removed_no_action. Constants '
          'regenerated from the Python AST each run (C20_constants_canonical by vm_compute). Model tied by '
-         'differential execution of the real _run_sync loop (vm_compute over cases files).',
+         'differential execution of the real _run_sync loop (vm_compute over cases files). Instance API quotas '
+         '(third anchored mechanism; sub-agent): Api/Quota.v + Props/C20Quota.v, 18 theorems - accepted iff total + '
+         'count and proid + count stay within the quotas (C20Q_accept_iff), the error order, for every sequence of '
+         'requests the stats updated by exactly the accepted creates stay within both quotas (C20Q_invariant), with '
+         'the master\'s aggregation the real /scheduled population does (C20Q_system_invariant), and the bound on what '
+         'stale stats allow (C20Q_stale_partial, refuted witnesses); constants and statement shapes re-extracted every '
+         'run; correspondence through the real API().create.',
     note='Coq kernel; translator tables_c20.py; fakes for ZooKeeper/time/cell API/alerts; tokens compared on the '
          'integer lattice 1/(_INTERVAL*tps), float-ambiguous cases skipped and counted; scheduled list as read by '
          'each evaluation (watch lag = environment); no concurrent watch callbacks; alert_f total; wait-time values '
-         'and api/instance.py quotas not modelled; budget theorem per configuration epoch.',
+         'not modelled; the rsrc_id regexes of the API are pinned textually, not modelled; budget theorem per '
+         'configuration epoch.',
     technique='Rocq proof (induction over event histories, scaled-integer token bucket) over AST-regenerated '
               'constants + differential correspondence of the real _run_sync loop (cases.v/vm_compute)',
     ref='DESIGN.md section 7 C20')
@@ -153,7 +160,13 @@ CLAIMED['C16'] = dict(
          'C16_idempotent, C16_others_untouched / C16_start_others_untouched, C16_interleaving, '
          'C16_port_ranges_disjoint, under the computational premise C16_templates_match discharged by vm_compute on '
          'the generated table; interpreter tied by differential execution of the real functions on real rule/endpoint '
-         'directories.',
+         'directories. Port allocation (third anchored mechanism; sub-agent): Node/Ports.v + Props/C16Ports.v, 22 '
+         'theorems over runtime._allocate_sockets / _allocate_network_ports_proto / allocate_network_ports with the '
+         'sampled order and the busy set as inputs - ports of one protocol pairwise distinct, free and in the pool of '
+         'the manifest\'s environment, prod and non-prod pools disjoint, named endpoints first in manifest order, '
+         'port 0 replaced by the real port, exact error condition incl. the off-by-one of the for-else '
+         '(C16P_exactly_enough_boundary); constants and shapes re-extracted every run; correspondence through the '
+         'real function with a fake socket module.',
     note='DNS assumed stable between start and finish; ip-sets/resolver/newnet/network client are fakes; statements the '
          'translator classifies as irrelevant (plugin, newnet, conntrack) are trusted; ~7% of generated cases skipped '
          'as order-ambiguous (passthrough set iteration).',
